@@ -128,6 +128,7 @@ theorem abort_after_more_disturbs_the_next :
 
 /-- generated obligation: in `on_incomplete_transfer` the frame is checked before its payload is kept -/
 theorem source_checked_before_kept : checkedBeforeKept = true := by decide
+theorem source_append_only_pushes : appendOnlyPushes = true := by decide
 
 /-- **refused_frame_leaves_nothing (C10).** A continuation frame whose delivery-id, tag or format
     contradicts the delivery in progress is reported as an error and leaves that delivery exactly as it
